@@ -339,3 +339,36 @@ def none_vs_truthiness(project: Project, module_prefix: str):
                 if k:
                     truthy.setdefault(k, []).append((fi, t))
     return [(k, none_tested[k], truthy[k]) for k in sorted(set(none_tested) & set(truthy))], len(none_tested)
+
+
+def collapse_aliases(fnode: ast.AST) -> ast.AST:
+    """A copy of the function in which a local that is bound exactly once to another single-assigned local (``lbs = _tmp`` or
+    pairwise ``lbs, ubs = _a, _b``) is replaced by that local everywhere: two names for one object are one name."""
+    import copy
+    sa = single_assignments(fnode)
+    alias = {k: v.id for k, v in sa.items() if isinstance(v, ast.Name) and v.id in sa and v.id != k}
+    # follow chains
+    def root(n, seen=()):
+        while n in alias and n not in seen:
+            seen = seen + (n,)
+            n = alias[n]
+        return n
+    if not alias:
+        return fnode
+    out = copy.deepcopy(fnode)
+
+    class R(ast.NodeTransformer):
+        def visit_Name(self, node):
+            if node.id in alias:
+                return ast.copy_location(ast.Name(id=root(node.id), ctx=node.ctx), node)
+            return node
+    out = R().visit(out)
+    # drop the now trivial `x = x` / `x, y = x, y` statements
+    class D(ast.NodeTransformer):
+        def visit_Assign(self, node):
+            if len(node.targets) == 1 and ast.unparse(node.targets[0]) == ast.unparse(node.value):
+                return None
+            return node
+    out = D().visit(out)
+    ast.fix_missing_locations(out)
+    return out
